@@ -501,6 +501,8 @@ func prGen(kind string) func(c *core.Ctx) {
 			{"m\n", map[string]string{"m": "(a\nb)"}}, {"m x\n", map[string]string{"m": "until a\nb\ndo c; done; echo"}},
 			{"m\n", map[string]string{"m": "echo $(if a\nthen b\nfi)"}}, {"m\n", map[string]string{"m": "( if a\nthen b\nfi )"}}, {"m\n", map[string]string{"m": "{ while a\ndo b\ndone; }"}},
 			{"m\n", map[string]string{"m": "f() { a\nb\n}"}}, {"m\n", map[string]string{"m": "if (a\nb) then c; fi"}},
+			{"x\n", map[string]string{"x": "{ a\n}"}}, {"{ x }\n", map[string]string{"x": "a\n"}}, {"f() { x }\n", map[string]string{"x": "a\n"}}, {"x\n", map[string]string{"x": "{ (a) >f\n}"}},
+			{"x\n", map[string]string{"x": "{ cat <<E\nbody\nE\n}"}}, {"x\n", map[string]string{"x": "echo $(cat <<E\nbody\nE\n)"}}, {"x\n", map[string]string{"x": "echo `cat <<E\nbody\nE\n`"}},
 			{"m\n", map[string]string{"m": "if a; then b; fi"}}, {"m; n\n", map[string]string{"m": "a |\nb", "n": "c &&\nd"}},
 		} {
 			cs := prCase{Src: a.src, Aliases: a.al, Kind: "alias-made"}
